@@ -14,7 +14,7 @@ from functools import lru_cache
 from .execmodel import ExecHooks, make_session, node
 from .interp import explore
 from .model import AnalysisError, Program, norm
-from .values import ClsRef, Const, Func, Lam, NodeV, Sym, tagof
+from .values import ClsRef, Const, Func, Lam, NodeV, Part, Sym, tagof
 
 _cache: dict = {}
 
@@ -48,6 +48,9 @@ def stages(prog: Program) -> list[Stage]:
             continue
         fn, kwargs, site = e[2], e[3], e[4]
         name = None
+        if isinstance(fn, Part) and isinstance(fn.func, Func):
+            kwargs = {**(kwargs or {}), **fn.kwargs}
+            fn = fn.func
         if isinstance(fn, Func):
             name = fn.qual
         else:
